@@ -160,8 +160,9 @@ func (r ReadServerIDResponse) bytes(data []byte) []byte {
 	data[0] = r.UnitID
 	data[1] = FunctionReadServerID
 
-	serverIDLen := uint8(len(r.ServerID))
-	data[2] = serverIDLen
+	// indexes are calculated as int: uint8 arithmetic wraps for server ids over 251 bytes
+	serverIDLen := len(r.ServerID)
+	data[2] = uint8(serverIDLen)
 	copy(data[3:3+serverIDLen], r.ServerID)
 
 	data[3+serverIDLen] = r.Status
